@@ -396,6 +396,9 @@ func reifyValue(
 			ctx := val.Context()
 			return reflect.Value{}, raisePathErr(err, val.meta(), "", ctx.path("."))
 		}
+		if err := runValidators(reified, opts.validators); err != nil {
+			return reflect.Value{}, raiseValidation(val.Context(), val.meta(), "", err)
+		}
 		return reflect.ValueOf(reified), nil
 	}
 
